@@ -306,6 +306,18 @@ def replay_trail_{l1}_{l2}(has_trail, tok, tok2):
     return replay_link_trail(has_trail, tok, tok2)
 ''')
     out.append('''
+def towt_all(ki: int, ti: int, has_children: bool, has_attrs: bool) -> bool:
+    """
+    pre: 0 <= ki < len(TW_KINDS) and 0 <= ti < len(TW_TAGS)
+    post: _
+    """
+    return towt_total(ki, ti, has_children, has_attrs)
+
+
+def replay_towt_all(ki, ti, has_children, has_attrs):
+    return replay_towt(ki, ti, has_children, has_attrs)
+
+
 def tokq_all(level: int, q: str, v: str) -> bool:
     """
     pre: 0 <= level <= 3
@@ -337,7 +349,8 @@ def run(rep: C.Report) -> None:
     xh.check_harness(
         rep,
         H,
-        {"^tokq_": dict(name="Ob10 the tokenizer's quote mask never leaves token_iter (plain lines and heading titles)", functions=["parser.py:token_iter"], bounds="line with a tag carrying two quoted attributes, plain or as the title of a heading of level 1..3; quote character and one value character symbolic"),
+        {"^towt_": dict(name="Ob11 to_wikitext(), which parse() applies to the nodes in the attribute region of a table / row, is total (no exception out of parse())", functions=["node_expand.py:to_wikitext", "parser.py:check_for_attributes"], bounds="every node kind x 6 tags for HTML nodes (allowed paired and void tags, the stray end tag </hl>, an extension tag known only to the context) x with/without children x with/without attributes, documented argument shapes (symbolic indices: solver-driven case split)"),
+         "^tokq_": dict(name="Ob10 the tokenizer's quote mask never leaves token_iter (plain lines and heading titles)", functions=["parser.py:token_iter"], bounds="line with a tag carrying two quoted attributes, plain or as the title of a heading of level 1..3; quote character and one value character symbolic"),
          "^trail_": dict(name="Ob8 text arriving after a closed link: the link keeps at most one (trail) string, nothing is lost or reordered", functions=["parser.py:text_fn (link trail)"], bounds="link with or without a trail; one token of 1..2 (thorough 3) or two tokens of 1..2 symbolic characters over {a,s,space,!,'}"),
          "^magic_": dict(name="Ob7 re-parsing the arguments of a saved template / parameter reference / link / external link leaves nothing open that it opened and never pops ROOT (no exception)", functions=["parser.py:magic_fn", "parser.py:_parser_pop", "parser.py:process_text"], bounds="4 construct kinds x {top level, table cell} x optional open italic x 2 (thorough 3) arguments each drawn from 10 argument texts with open/close formatting, rule and list lines (symbolic indices: solver-driven case split)"),
          "^url_": dict(name="Ob6 the URL part of an external link is merged and finalized when it becomes an argument", functions=["parser.py:text_fn (URL whitespace branch)"], bounds="2..3 string children of one symbolic char over {a, space, placeholder}"),
